@@ -9,6 +9,8 @@ structure Rng where
   s : Nat
   victim : Nat := 0      -- k > 0: the k-th bounded position met gets a length of max + 1 (hostile "over the maximum, bytes present" inputs)
   hit : Bool := false
+  left : Nat := 200      -- elements of counted arrays still allowed in this value: a type that recurses through several counted
+                         -- arrays per level (`st4 { st5 xs<>; st5 ys<4>; }`, `st5 { st4 a; st4 b; st4 c; }`) would otherwise grow like 18^depth
 
 def Rng.next (r : Rng) : Nat × Rng :=
   let s := (r.s * 6364136223846793005 + 1442695040888963407) % 2^64
@@ -110,6 +112,8 @@ def genArr (a : Ast) : Nat → Nat → ArrayType → Rng → XVal × Rng
          let fired := r1.hit && !r.hit
          let n := if depth ≥ 5 && !fired then 0 else n
          let n := match lim with | some m => if fired then n else min n m | none => n
+         let n := if fired then n else min n r1.left
+         let r1 := { r1 with left := r1.left - n }
          let (xs, r2) := genMany a fuel (depth + 1) t n r1
          (.varArr xs, r2))
 def genBasic (a : Ast) : Nat → Nat → BasicType → Rng → XVal × Rng
